@@ -364,6 +364,28 @@ def validate_traces(trace_module, traces, cfg=None, timeout=900, env=None, chunk
     return verdicts, stats
 
 
+def binding_selftest(trace_module, traces, corrupt, env=None, n=6, timeout=300):
+    """anti-vacuity: take up to n accepted traces, corrupt one recorded field in each (function `corrupt(trace)` returns a
+    modified deep copy or None if it cannot corrupt that trace) and require the trace spec to reject every one.
+    Returns {'corrupted': k, 'rejected': r}; r < k means the trace spec does not constrain that field."""
+    import copy
+    bad = []
+    for t in traces:
+        c = corrupt(copy.deepcopy(t))
+        if c is not None:
+            c['tid'] = len(bad) + 1
+            bad.append(c)
+        if len(bad) >= n:
+            break
+    if not bad:
+        return {'corrupted': 0, 'rejected': 0}
+    v, _ = validate_traces(trace_module, bad, env=env, timeout=timeout, chunk=max(1, len(bad)))
+    rej = sum(1 for t in bad if v[t['tid']][0] != 'ACCEPT')
+    if rej != len(bad):
+        raise MachineryError('binding self-test: %s accepted %d of %d corrupted traces' % (trace_module, len(bad) - rej, len(bad)))
+    return {'corrupted': len(bad), 'rejected': rej}
+
+
 def _hashable(x):
     if isinstance(x, list):
         return tuple(_hashable(i) for i in x)
